@@ -36,6 +36,9 @@ const (
 	FScale    = 1000 // tax and slash fraction are n/1000
 	TimeBase  = int64(1600000000)
 	NowOffset = int64(1000) // model time 1000 = TimeBase
+	// one unit of model time is 100 ms: block times, disabling times, promotion windows and the refund
+	// delay are not aligned to whole seconds
+	TimeUnit = 100 * time.Millisecond
 	ModName   = "vmod"      // the test module owning module contexts
 )
 
@@ -117,13 +120,13 @@ func modelTime(t time.Time) int64 {
 	if t.IsZero() || t.Unix() < TimeBase-NowOffset {
 		return 0
 	}
-	return t.Unix() - TimeBase + NowOffset
+	return int64(t.Sub(time.Unix(TimeBase, 0))/TimeUnit) + NowOffset
 }
 
-func secs(n int64) time.Duration { return time.Duration(n) * time.Second }
+func secs(n int64) time.Duration { return time.Duration(n) * TimeUnit }
 
 func realTime(m int64) time.Time {
-	return time.Unix(TimeBase+m-NowOffset, 0).UTC()
+	return time.Unix(TimeBase, 0).Add(time.Duration(m-NowOffset) * TimeUnit).UTC()
 }
 
 var registeredApps = 0
@@ -139,8 +142,8 @@ func NewChain(p MParams, names []string, bal map[string]int64) *Chain {
 	c.Ctx = app.BaseApp.NewContext(false, tmproto.Header{Height: c.Height, Time: realTime(c.Now)})
 	c.Handler = service.NewHandler(c.K)
 
-	arb := time.Duration(p.RefundDelay/2) * time.Second
-	comp := time.Duration(p.RefundDelay-p.RefundDelay/2) * time.Second
+	arb := secs(p.RefundDelay / 2)
+	comp := secs(p.RefundDelay - p.RefundDelay/2)
 	c.K.SetParams(c.Ctx, types.NewParams(
 		p.MaxTimeout, p.Multiple, sdk.NewCoins(sdk.NewCoin(Denom, sdk.NewInt(p.MinDeposit))),
 		sdk.NewDecWithPrec(p.Tax, 3), sdk.NewDecWithPrec(p.Slash, 3), comp, arb, 4000, Denom,
